@@ -548,6 +548,8 @@ func (e *Env) callContract(fc *FuncContract, key string, sig *types.Signature, r
 		s := SInt
 		if kind == "bool" {
 			s = SBool
+		} else if kind == "seq" {
+			s = SArr
 		}
 		e.declare("ghost$"+g, s)
 		snapshot("ghost$"+g, s)
